@@ -11,6 +11,7 @@ import (
 
 	"k8s.io/klog/v2"
 
+	_ "verif/harness/drivers/advplug"
 	"verif/harness/monitor"
 	"verif/harness/sim"
 	"verif/harness/simapi"
